@@ -133,7 +133,11 @@ func (s *Sched) Point(desc string) {
 	g := gid()
 	s.mu.Lock()
 	if s.aborted {
+		known := s.byGID[g] != nil
 		s.mu.Unlock()
+		if known {
+			runtime.Goexit() // a thread of an execution that is over
+		}
 		return
 	}
 	t := s.byGID[g]
@@ -258,6 +262,46 @@ func (s *Sched) Unfinished() []string {
 	for _, t := range s.threads {
 		if !t.done {
 			out = append(out, fmt.Sprintf("T%d(%s)@%s", t.id, t.name, t.desc))
+		}
+	}
+	return out
+}
+
+// Canonicalize renumbers the threads known so far by the point they are parked at. Goroutines that the code under test
+// starts by itself before the run begins are adopted in a racy order; after this call their ids are a function of where
+// they wait (threads waiting at the same point are interchangeable).
+func (s *Sched) Canonicalize() {
+	s.mu.Lock()
+	defer s.mu.Unlock()
+	sort.SliceStable(s.threads, func(i, j int) bool { return s.threads[i].desc < s.threads[j].desc })
+	for i, t := range s.threads {
+		t.id = i
+	}
+	s.nextID = len(s.threads)
+}
+
+// Blocked lists the threads that are neither parked at a point nor finished (blocked inside code the scheduler does not
+// see), with the description of the last point each of them passed.
+func (s *Sched) Blocked() []string {
+	s.mu.Lock()
+	defer s.mu.Unlock()
+	var out []string
+	for _, t := range s.threads {
+		if !t.done && !t.parked {
+			out = append(out, fmt.Sprintf("T%d(%s)@%s", t.id, t.name, t.desc))
+		}
+	}
+	return out
+}
+
+// Parked lists the descriptions of the points at which threads are parked right now.
+func (s *Sched) Parked() []string {
+	s.mu.Lock()
+	defer s.mu.Unlock()
+	var out []string
+	for _, t := range s.threads {
+		if !t.done && t.parked {
+			out = append(out, t.desc)
 		}
 	}
 	return out
